@@ -68,7 +68,8 @@ class C08(SessimProp):
     wall_caps = {"quick": 200, "thorough": 1500}
     rule = ("case = one generated terminating program (definitions request + expression request); for it, every evaluation "
             "step k is a crash point: fresh session, interrupt delivered by the real reader code exactly before step k, "
-            "then :resume until done; plus interrupt-at-every-step in one session, random multi-point plans and "
+            "then :resume until done; the same with the interrupt arriving WHILE step k executes (hook H2b, after the "
+            "evaluator's own check); plus interrupt-at-every-step in one session, random multi-point plans and "
             "double interrupts. evaluations = simulated sessions. distinct_nontrivial = distinct (program hash, fault plan) "
             "pairs in which at least one interrupt fired and the resumed run was compared with the uninterrupted one")
     expected_probes = ["in_for_body", "in_while", "depth>=3", "first_step", "last_step", "at_return",
@@ -76,7 +77,7 @@ class C08(SessimProp):
 
     def gen_case(self, rng, tier, index):
         size = rng.randint(5, 16) if tier == "quick" else rng.randint(5, 30)
-        defs, main = gen_prog(rng.fork("prog"), size=size)
+        defs, main = gen_prog(rng.fork("prog"), size=size, shell=rng.fork("shell").chance(0.25))
         if rng.chance(0.2):
             # "same result OR ERROR": end the program in one of the runtime-error sites
             import sites
@@ -217,6 +218,11 @@ class C08(SessimProp):
         # (d) double interrupts
         for _ in range(3 if tier == "quick" else 8):
             plans.append({"kind": "multi", "ks": [rng.randint(1, n)], "fault": "double"})
+        # (f) the interrupt arrives WHILE step k executes (after the evaluator's own check at the top
+        # of the step): it must stay pending until step k+1 and nothing inside step k may be undone
+        if n >= 2:
+            mids = list(range(1, n)) if (tier != "quick" or n <= 120) else sorted(rng.sample(range(1, n), 120))
+            plans += [{"kind": "multi", "ks": [k], "fault": "mid"} for k in mids]
 
         for plan in plans:
             res, v = self.run_plan(ex, case, plan, base)
